@@ -511,12 +511,33 @@ def label_lifecycle(rng, dev):
     return out
 
 
+def switch_lifecycle(rng):
+    """a label defined on the 32-bit device, then a switch to a 16-bit device (`mpu` re-creates the machine and its
+    address parser: the label is gone and every use of it must be rejected), then uses of the name."""
+    def mk(cmd, args, cls):
+        t = cmd + (' ' + args if args else '')
+        return Line(t, canon=t, cmd=cmd, argclass=cls, noise='none', quit=False)
+    name = rng.choice(['foo', 'bar', 'L1', 'start'])
+    v = rng.choice([0x10000, 0x12345678, 0xffffffff, 0x3ffff, rng.randrange(0x10000, 1 << 32)])
+    out = [mk('mpu', '65org16', 'mpu'), mk('add_label', '%s %s' % (hexs(v), name), 'al-ok'),
+           mk('mpu', rng.choice(['6502', '65c02']), 'mpu')]
+    for _ in range(rng.choice([1, 2, 3])):
+        out.append(mk(*rng.choice([('registers', 'pc=%s' % name, 'regs-label'),
+                                   ('registers', 'x=1, pc=%s, y=2' % name, 'regs-label'),
+                                   ('add_breakpoint', name, 'ab-label'), ('fill', '%s 1 2' % name, 'fill-label'),
+                                   ('add_label', '%s other' % name, 'al-label'), ('tilde', name, 'tilde-label')])))
+    return out
+
+
 def gen_session(rng, dev):
     n = rng.choice([1, 2, 3, 5, 8, 12, 20, 30])
     lines = []
     while len(lines) < n:
         if rng.random() < 0.04:
             lines += label_lifecycle(rng, dev)
+            continue
+        if rng.random() < 0.01:
+            lines += switch_lifecycle(rng)
             continue
         if rng.random() < 0.03:
             # `return` needs a reachable RTS: BRK at the current pc vectors to 0
@@ -644,6 +665,7 @@ def judge(dev, recs, segs):
     bm, am = (1 << W) - 1, (1 << AW) - 1
     findings, ties, rows = [], [], []
     hist = []
+    model_lost = False      # after the first model/real disagreement only the model-free property parts are judged
 
     def finding(kind, what, rec, extra=None, **kw):
         key = dict(kind=kind)
@@ -739,6 +761,8 @@ def judge(dev, recs, segs):
         # ---------------- TIE: model vs real ----------------
         outcome = 'exit' if ret else (cats[0] if cats else 'ok')
         rows.append((word or None, ln, outcome))
+        if model_lost:
+            continue
         if seg is None:
             ties.append(dict(what='model returned no segment for line %d' % idx, model='', real=''))
             continue
@@ -791,7 +815,7 @@ def judge(dev, recs, segs):
             ties.append(dict(what='model and real monitor disagree on line %d %r of session %r [%s]' % (
                 idx, ln.text, hist[:-1], dev), model='; '.join(bad)[:600], real=text[:300],
                 replay=dict(device=dev, lines=list(hist))))
-            break
+            model_lost = True
     return findings, ties, rows
 
 
